@@ -83,6 +83,8 @@ def strategy_impl(draw, tier):
         "req_spelling": draw(st.sampled_from(["tuple", "list"] + (["str"] if req_k == 1 else []))),
         "dims": order, "values": values, "nan_holes": nan_holes,
         "boundary": draw(st.sampled_from(M.RULES)), "op": draw(st.sampled_from(["diff", "interp", "min", "max", "cumsum"])),
+        # a second model run in the same interpreter: same names, other metric values, used first
+        "decoy_first": draw(st.booleans()),
     }
 
 
@@ -156,6 +158,11 @@ def check_weighted_multi(case, ctx):
         raise Violation("metric_weighted operation over several axes is not op(data*metric)/metric(result position) axis by axis",
                         op=sub["op"], axes=sub["op_axes"], targets=targets)
     return {"nontrivial": len(sub["op_axes"]) >= 1, "classes": ["kind:weighted-multi", f"op:{sub['op']}", f"naxes:{len(sub['op_axes'])}"]}
+
+
+def same_values(a, b):
+    av, bv = np.asarray(a.values), np.asarray(b.values)
+    return av.shape == bv.shape and bool(np.allclose(av, bv, rtol=1e-12, atol=1e-12))
 
 
 def metric_array(entry):
@@ -263,6 +270,23 @@ def check(case, ctx):
     vals = np.asarray(case["values"], dtype=np.float64).copy()
     da_full = xr.DataArray(vals, dims=case["dims"], name="phi")
     req = list(case["req"])
+    if case.get("decoy_first"):
+        ds2 = build.make_dataset(axes, [("t", 2)])
+        for r in case["registry"]:
+            for e in r["vars"]:
+                ds2[e["name"]] = 3.0 * ds[e["name"]] + 1.0
+        try:
+            g2 = build.make_grid(ds2, axes, metrics=dict(metrics_arg), boundary="extend")
+            for call in (lambda: g2.get_metric(da_full, list(req)), lambda: g2.integrate(da_full, list(req)),
+                         lambda: g2.derivative(da_full, req[0]), lambda: g2.interp_like(ds2[case["registry"][0]["vars"][0]["name"]], da_full)):
+                try:
+                    with warnings.catch_warnings():
+                        warnings.simplefilter("ignore")
+                        call()
+                except Exception:  # noqa: BLE001 - the other run is only there to leave traces, if any
+                    pass
+        except Exception:  # noqa: BLE001
+            pass
     spelled = req[0] if case["req_spelling"] == "str" else (tuple(req) if case["req_spelling"] == "tuple" else list(req))
 
     acc, needs_interp, kind = acceptable_metrics(case["registry"], req, apos, by)
@@ -300,7 +324,8 @@ def check(case, ctx):
         want_arr, moved = interp_to(e0, reg0[frozenset(req)]["axes"], apos, by)
         il = must_return("Grid.interp_like", grid.interp_like, ds[e0["name"]], da_full, "extend", None)
         want_dims = [gen.dim_name(a, apos[a]) for a in on_axes(e0, reg0[frozenset(req)]["axes"])]
-        if set(il.dims) != set(want_dims) or not np.allclose(np.asarray(il.transpose(*want_dims).values), want_arr, rtol=1e-12, atol=0):
+        if set(il.dims) != set(want_dims) or np.shape(il.transpose(*want_dims).values) != np.shape(want_arr) or not np.allclose(
+                np.asarray(il.transpose(*want_dims).values), want_arr, rtol=1e-12, atol=0):
             raise Violation("interp_like does not move the array to the position of `like` (with the requested extension)", variable=e0["name"],
                             got_dims=list(il.dims), expected_dims=want_dims)
         classes.append("interp_like")
@@ -348,7 +373,7 @@ def check(case, ctx):
             for arr, dims in acc_out:
                 w = d / xr.DataArray(arr, dims=dims)
                 if w.dims == deriv.dims or set(w.dims) == set(deriv.dims):
-                    if np.allclose(np.asarray(w.transpose(*deriv.dims).values), np.asarray(deriv.values), rtol=1e-12, atol=1e-12):
+                    if same_values(w.transpose(*deriv.dims), deriv):
                         ok = True
             if not ok:
                 raise Violation("derivative is not diff divided by the metric at the result's position", axis=ax, to=to, registry=summary(case), apos=apos)
@@ -362,7 +387,7 @@ def check(case, ctx):
                 mid = must_return(f"Grid.{op}", fn, pre.transpose(*da_full.dims), ax, **kw)
                 for aout, dout in acc_out:
                     w = mid / xr.DataArray(aout, dims=dout)
-                    if np.allclose(np.asarray(w.transpose(*gw.dims).values), np.asarray(gw.values), rtol=1e-12, atol=1e-12):
+                    if set(w.dims) == set(gw.dims) and same_values(w.transpose(*gw.dims), gw):
                         ok = True
             if not ok:
                 raise Violation(f"{op}(metric_weighted) is not op(data*metric)/metric(result position)", axis=ax, to=to, registry=summary(case), apos=apos)
